@@ -43,6 +43,24 @@ def schedules():
             s = [_uop("set", 1, ["m"], key="k1", k=k), tick, _uop("set", 1, ["m"], key="k1"), tick, _uop("rem", 1, ["m"], key="k1"), tick,
                  {"a": "gcf", "r": 1}, {"a": "undo", "r": 1}, {"a": "gcf", "r": 1}, {"a": "undo", "r": 1}, {"a": "redo", "r": 1}]
             add("map" + k, ["m"], s, gc1)
+        # stale keep flags: a tracked edit inside a nested type marks the element AND its ancestors, clearing a stack
+        # un-marks the ancestors although another element below them is still marked. The nested type is then removed and
+        # collected - by a forced gc, or by the ordinary gc of the transaction in which a remote removal arrives - and the
+        # replica's state is exported to the other replicas (closing exchange)
+        for k, inner, inner2 in (("A", _uop("del", 1, ["m", "k1"], 0, 1), _uop("ins", 1, ["m", "k1"], 0, 1)),
+                                 ("M", _uop("rem", 1, ["m", "k1"], key="k1"), _uop("set", 1, ["m", "k1"], key="k2"))):
+            for ticks in (False, True):
+                T = [tick] if ticks else []
+                s = [_uop("set", 1, ["m"], key="k1", k=k)] + T + [inner] + T + [_uop("ins", 1, ["t"], 0, 2)] + T + \
+                    [{"a": "undo", "r": 1}, _uop("set", 1, ["m"], key="k1"), {"a": "gcf", "r": 1}, {"a": "redo", "r": 1},
+                     {"a": "undo", "r": 1}, {"a": "gcf", "r": 1}]
+                add("stale" + k, ["t", "m"], s, gc1)
+            for forced in (True, False):
+                s = [_uop("set", 1, ["m"], key="k1", k=k), tick, {"a": "sync", "f": 1, "t": 2, "how": "state", "sv": "own"},
+                     inner, tick, inner2, tick, {"a": "undo", "r": 1}, _uop("ins", 1, ["t"], 0, 1), tick,
+                     _uop("rem", 2, ["m"], key="k1", o=""), {"a": "dlv", "r": 1, "u": [6]}]
+                s += ([{"a": "gcf", "r": 1}] if forced else []) + [{"a": "undo", "r": 1}, {"a": "undo", "r": 1}, {"a": "redo", "r": 1}]
+                add("staler" + k, ["t", "m"], s, gc1)
     return out
 
 
